@@ -290,20 +290,27 @@ def run(ctx):
         ctx.nontrivial(('concat', ctx.seed, ctx.shard, j))
         n += 1
     # size ladders: long sysex as the appended message, thousands of messages in one call
-    if ctx.shard == 3 % ctx.nshards:
-        for ln in (253, 254, 255, 256, 1023, 1024, 1025, 4096, 65535, 65536, 65537, 70000):
-            data = tuple((7 * i) % 128 for i in range(ln))
-            for P in ([], [0xF0, 1, 2], [0x90, 5], [0x40, 0xF7, 0xF8]):
-                check_pair(ctx, P, 'sysex', {'data': data})
-                n += 1
-        for count in (4095, 4096, 4097, 10000):
-            specs = []
-            for i in range(count):
-                specs.append(('note_on', {'channel': i % 16, 'note': i % 128, 'velocity': (i // 128) % 128}) if i % 4
-                             else ('clock', {}))
-            check_concat(ctx, specs)
+    # (spread over the shards: one size per shard)
+    k_ladder = 0
+    for li, ln in enumerate((253, 254, 255, 256, 1023, 1024, 1025, 4096, 65535, 65536, 65537, 70000)):
+        if (li + 3) % ctx.nshards != ctx.shard:
+            continue
+        data = tuple((7 * i) % 128 for i in range(ln))
+        for P in ([], [0xF0, 1, 2], [0x90, 5], [0x40, 0xF7, 0xF8]):
+            check_pair(ctx, P, 'sysex', {'data': data})
             n += 1
-        ctx.nontrivial(None, 52)
+            k_ladder += 1
+    for ci, count in enumerate((4095, 4096, 4097, 10000)):
+        if (ci + 15) % ctx.nshards != ctx.shard:
+            continue
+        specs = []
+        for i in range(count):
+            specs.append(('note_on', {'channel': i % 16, 'note': i % 128, 'velocity': (i // 128) % 128}) if i % 4
+                         else ('clock', {}))
+        check_concat(ctx, specs)
+        n += 1
+        k_ladder += 1
+    ctx.nontrivial(None, k_ladder)
     # a parse inside the iteration of another parse (the module-level functions keep no state between calls)
     if ctx.shard == 4 % ctx.nshards:
         for j in range(50):
